@@ -573,6 +573,74 @@ reg(Spec(
               "sequential replay) under a stress workload with injected "
               "yields and core pinning"))
 
+# ----------------------------------------------------------------------- C20
+EXDIR = os.path.join(B.REPO, "examples")
+
+
+def ex_spec(which, src, flavour, cases, shards):
+    return RunSpec("examples", None, flavour, cases, shards=shards,
+                   defines=("EX_" + which, "BSPLINE_INTERPOLATION_USE_EIGEN",
+                            "BSPLINE_ADD_TEST_CHECKS"),
+                   extra_sources=[os.path.join(EXDIR, f) for f in src],
+                   extra_flags=("-I" + EXDIR,), name="ex-" + which.lower())
+
+
+def c20_runs(tier, seed):
+    runs = []
+    for fl in ("asan", "dbgstl"):
+        runs += [
+            ex_spec("DIFFUSION", ["diffusion.cpp"], fl, q(tier, 90, 3000), 15),
+            ex_spec("POTENTIAL", ["spline-potential.cpp"], fl,
+                    q(tier, 48, 960), 16),
+            ex_spec("FIXED", ["harmonic-oscillator.cpp", "hydrogen.cpp"], fl,
+                    2, 2),
+        ]
+    if tier == "thorough":
+        runs += [ex_spec("DIFFUSION", ["diffusion.cpp"], "nochk", 30000, 16),
+                 ex_spec("POTENTIAL", ["spline-potential.cpp"], "nochk", 6000,
+                         16)]
+    return runs
+
+
+reg(Spec(
+    "C20", "the shipped example solvers are well-defined and solve their problems",
+    c20_runs,
+    rule=("the example sources of /repo/examples are compiled (order-10 "
+          "splines, Eigen) in the asan (ASan+UBSan+libstdc++ assertions) and "
+          "dbgstl (checked STL) flavours; any sanitizer report, debug-mode "
+          "diagnostic or fatal signal is a violation. Diffusion: grids of "
+          "2,3,4,5,6,8,10,11,12,13,14,17,21,30,40 points (uniform, random "
+          "widths, off-centre), constant or piecewise-constant positive D "
+          "with jumps of 50x and 1000x, boundary values of both signs and "
+          "zero; oracle: c attains the prescribed values at both ends (1e-10 "
+          "* scale), scaling D by 2 and 3 changes c by <= 1e-9 * scale on "
+          "every grid point and 4 raster points per interval, constant D gives "
+          "the straight line (1e-10 * scale). Spline potential: x^2/2 and "
+          "cosh-type potentials interpolated on 21..56 points, random cubic "
+          "splines on the whole grid and supported only on the middle half; "
+          "oracle: the ten eigenvalues of v+c equal those of v plus c "
+          "(1e-10 relative). Harmonic oscillator and hydrogen: n+1/2 and "
+          "-1/n^2 with the suite's tolerances (1e-12, 5e-12). Distinct by "
+          "full input."),
+    required=["diffusion:solves", "diffusion:constant-D",
+              "diffusion:piecewise-D", "diffusion:nonzero-end-value",
+              "diffusion:straight-line-checked", "diffusion:points:2",
+              "diffusion:points:11", "diffusion:points:40",
+              "potential:shift-checked", "potential:interpolated",
+              "potential:partial-support", "potential:random-whole-grid",
+              "harmonic-oscillator:solves", "hydrogen:solves"],
+    assumptions=["tolerances are metamorphic (solution against solution) and "
+                 "calibrated: largest deviations observed on the unchanged "
+                 "tree are 1e-13 (boundary), 2e-12 (scaling), 2e-13 (straight "
+                 "line), 5e-14 (eigenvalue shift)", "the spline-potential "
+                 "solver returns ten states and therefore needs at least 21 "
+                 "grid points", "accuracy against the continuous solution is "
+                 "not demanded"],
+    evaluations=["diffusion:solves", "potential:solves",
+                 "harmonic-oscillator:solves", "hydrogen:solves"],
+    technique="sanitizers (ASan+UBSan, libstdc++ assertions, checked STL) on "
+              "the real example sources + metamorphic solution oracles"))
+
 # ------------------------------------------------- pool machine: C03/10/14/15
 POOL_RULE = ("one case = one history of 150 steps over a pool of 15 splines "
              "(orders 0..4, three slots each, on a grid of 6..10 points held in "
